@@ -228,5 +228,11 @@ def guard(ob_fn):
             r = Result(getattr(ob_fn, 'oid', ob_fn.__name__.upper()), 'mirsym', ob_fn.__doc__ or ob_fn.__name__)
             r.broken(f'MIR engine: {e}')
             return r
+        except Exception as e:
+            import traceback
+            r = Result(getattr(ob_fn, 'oid', ob_fn.__name__.upper()), 'mirsym', ob_fn.__doc__ or ob_fn.__name__)
+            tb = traceback.format_exc().strip().splitlines()
+            r.broken(f'obligation code raised {type(e).__name__}: {e} ({tb[-3].strip() if len(tb) > 2 else ""})')
+            return r
     w.__name__ = ob_fn.__name__
     return w
